@@ -23,7 +23,7 @@ def rv_locals(rv):
     k = rv["k"]
     if k in ("use", "cast", "repeat"):
         yield from op_locals(rv["op"])
-    elif k in ("ref", "addr", "discr", "copyderef"):
+    elif k in ("ref", "addr", "discr", "copyderef", "arr_head", "arr_tail"):
         yield from place_locals(rv["pl"])
     elif k == "bin":
         yield from op_locals(rv["a"])
@@ -234,6 +234,18 @@ class BodyInfo:
             if rv["ak"] in ("tuple", "closure", "array") or len(names) != len(ops):
                 names = [str(i) for i in range(len(ops))]
             return mk_agg(rv["ak"], rv["name"], rv["variant"], rv.get("vidx", 0), list(zip(names, ops)))
+        if k in ("arr_head", "arr_tail"):
+            # by-value iteration over a literal array (`for x in [a, b]`), see Inliner._expand_array_iter
+            a = self.place(rv["pl"], val)
+            if a[0] == "agg" and a[1] == "array":
+                if k == "arr_head":
+                    if a[5]:
+                        return mk_agg("adt", "core::option::Option", "Some", 1, [("0", a[5][0][1])])
+                    return mk_agg("adt", "core::option::Option", "None", 0, [])
+                return mk_agg("array", a[2], a[3], a[4], [(str(i), e) for i, (_n, e) in enumerate(a[5][1:])])
+            if k == "arr_head":
+                return ("call", rv.get("site", 0), "core::iter::Iterator::next", (mk_ref(a),))
+            return ("unk", "arr_tail")
         if k == "repeat":
             return ("repeat", self.operand(rv["op"], val))
         return ("unk", "rv:" + rv.get("desc", "")[:30])
